@@ -161,8 +161,19 @@ def verify_independent(info, signed_portion, sig_value):
 
 
 # ---------------------------------------------------------------- name input forms
-def name_form(rng, comps, allow_str=True):
-    """One of the accepted input representations of the same name."""
+ONE_SHOT_FORMS = ('generator', 'iterator', 'map')
+
+
+def name_form(rng, comps, allow_str=True, one_shot=True):
+    """One of the accepted input representations of the same name (NonStrictName: also any iterable of components,
+    including one-shot generators / iterators, which can be walked only once)."""
+    if one_shot and rng.random() < 0.12:
+        k = rng.randrange(3)
+        if k == 0:
+            return (bytes(c) for c in comps), 'generator'
+        if k == 1:
+            return iter([bytes(c) for c in comps]), 'iterator'
+        return map(bytes, [bytes(c) for c in comps]), 'map'
     k = rng.randrange(6 if allow_str else 3)
     if k == 0:
         return [bytes(c) for c in comps], 'list-bytes'
@@ -189,9 +200,44 @@ def gen_interest_param(rng):
     if rng.random() < 0.3:
         for _ in range(rng.randint(1, 3)):
             hints.append(gen.simple_name(rng, 1, 3))
-    p.forwarding_hint = [name_form(rng, h)[0] for h in hints]
+    p.forwarding_hint = [name_form(rng, h, one_shot=False)[0] for h in hints]
     d.update(can_be_prefix=p.can_be_prefix, must_be_fresh=p.must_be_fresh, nonce=p.nonce, lifetime=p.lifetime,
              hop_limit=p.hop_limit, fwd_hint=hints)
+    return p, d
+
+
+def mutate_meta(rng, m, d):
+    """Change 1-3 fields of an existing MetaInfo object in place (and the expectation with it): a producer reuses one
+    object for many packets."""
+    for _ in range(rng.randint(1, 3)):
+        f = rng.choice(['ct', 'fp', 'fb'])
+        if f == 'ct':
+            d['content_type'] = m.content_type = rng.choice([None, 0, 1, 255, 256, 65536, 2**32])
+        elif f == 'fp':
+            d['freshness'] = m.freshness_period = rng.choice([None, 0, 1, 255, 256, 65535, 65536, 2**32, 2**64 - 1])
+        else:
+            d['final_block'] = m.final_block_id = rng.choice([None, b'', rc.comp(0x32, rc.enc_nni(rng.choice([0, 9, 255, 300, 70000]))), rc.comp(8, b'last'),
+                                                             gen.rand_bytes(rng, rng.randint(1, 12))])
+    return m, d
+
+
+def mutate_interest_param(rng, p, d):
+    for _ in range(rng.randint(1, 3)):
+        f = rng.choice(['cbp', 'mbf', 'nonce', 'lifetime', 'hop', 'hint'])
+        if f == 'cbp':
+            d['can_be_prefix'] = p.can_be_prefix = not p.can_be_prefix
+        elif f == 'mbf':
+            d['must_be_fresh'] = p.must_be_fresh = not p.must_be_fresh
+        elif f == 'nonce':
+            d['nonce'] = p.nonce = rng.choice([None, 0, 7, 0xFFFFFFFF])
+        elif f == 'lifetime':
+            d['lifetime'] = p.lifetime = rng.choice([None, 0, 1, 255, 256, 4000, 65536, 2**32, 2**64 - 1])
+        elif f == 'hop':
+            d['hop_limit'] = p.hop_limit = rng.choice([None, 0, 1, 255])
+        else:
+            hints = [gen.simple_name(rng, 1, 3) for _ in range(rng.randint(0, 2))]
+            p.forwarding_hint = [name_form(rng, h, one_shot=False)[0] for h in hints]
+            d['fwd_hint'] = hints
     return p, d
 
 
